@@ -8,7 +8,7 @@ CONSTANTS
   VoidNames = {"img", "br", "input"}
   AttrChoices <- AttrChoicesSmall
   WsChoices = {"", "h", "v"}
-  Words = {"w1", "w2"}
+  Words = {"w1", "w2", "w3"}
   Exprs = {"E1"}
   Conds = {"C1", "C2"}
   Lists = {"L1"}
